@@ -607,7 +607,7 @@ pub fn run(args: &Args) {
     }
     // --- FastStr
     // + the allowances of the extension families (c20_x.rs), which do not go through push_coq
-    cx.budget = if args.thorough { 30000 + 6 * 1361 } else { 4000 + 1361 };
+    cx.budget = if args.thorough { 30000 + 6 * 1911 } else { 4000 + 1911 };
     // deep oracle: every length 0..=130, differently built contents (high-bit bytes, tiny alphabet, boundary bytes)
     for rep in 0..(if args.thorough { 8 } else { 1 }) {
         for n in 0..=130usize {
@@ -737,7 +737,8 @@ pub fn run(args: &Args) {
     cx.sum.cell_status("FastStr", "M+S");
     cx.sum.cell_status("StreamingLexIterator", "M+S");
     cx.sum.cell_status("SortableStrVec", "S-only");
-    cx.sum.cell_status("ZoSortedStrVec", "S-only");
+    cx.sum.cell_status("ZoSortedStrVec", "M+S");
+    cx.sum.cell_status("SortableStrVec_core", "M+S");
     cx.sum.cell_status("unicode", "M+S");
     cx.sum.cell_status("LineProcessor_configs", "M+S");
     cx.sum.dist_max("coq_cases", cx.shards.len() as u64);
